@@ -75,7 +75,7 @@ func gValParsed(x interface{}) string {
 		}
 		return "(VObj " + gList(items) + ")"
 	case nil:
-		panic("nil value")
+		return "(VStr [60;110;105;108;62]%N)" // "<nil>": orda values are never null; rendered so that it differs from every real value
 	}
 	panic(fmt.Sprintf("unsupported value %T", x))
 }
@@ -363,6 +363,27 @@ func (w *world) checkElements() {
 		}
 	}
 	w.c.Count("element-observations")
+}
+
+// checkOutcome: C02 — once every replica has every operation of the log, each exposes exactly the
+// outcome the specification assigns to that SET of operations (spec.go)
+func (w *world) checkOutcome() {
+	var ops []*model.Operation
+	for _, e := range w.log {
+		ops = append(ops, e.op)
+	}
+	want := specOutcome(w.kind, ops)
+	for _, r := range w.reps {
+		if r.cursor != len(w.log) || len(r.pendingOps()) != 0 {
+			return
+		}
+	}
+	for _, r := range w.reps {
+		if got := canon(r.dt.GetSnapshot().ToJSON()); got != want {
+			w.c.Violate("C02", "wrong-outcome-"+w.kind, fmt.Sprintf("%s replica %d exposes %s; the operations it has applied determine %s", w.kind, r.idx, got, want), w.desc)
+		}
+	}
+	w.c.Count("outcomes-compared-with-spec")
 }
 
 // ---------- snapshots (C10) ----------
@@ -1015,6 +1036,7 @@ func sliceCrdt(c *Ctx, kind string) {
 			}
 			w.checkConvergence()
 			w.checkElements()
+			w.checkOutcome()
 			if len(w.reps) > 1 {
 				w.cur = "snapshot"
 				w.snapshotCheck(c.Rng.Intn(nrep))
